@@ -2000,7 +2000,11 @@ def only_once(
         # which interferes with the event system's expectations
         strong_fn = fn  # noqa
         if once:
-            once_fn = once.pop()
+            try:
+                once_fn = once.pop()
+            except IndexError:
+                # another thread took it between the check and the pop
+                return None
             try:
                 return once_fn(*arg, **kw)
             except:
